@@ -630,7 +630,7 @@ impl Property for C17 {
         r
     }
     fn rule(&self) -> String {
-        "every generated case (request id/key/tag, value payload, two inner error codes and a backup error code of either parity, inner latency 0-2 ms) enumerates the complete grid {value, value_fn, from_error, from_request_error, backup service ok, backup service failing, exception} x {no predicate, accept all, refuse all, accept odd codes, stateful: accept every other time it is asked} x {inner ok, error a, error b} = 105 cells (exhaustive for the finite part); each cell's layer then takes 0-3 further generated calls (other outcomes) through the same service, a clone or a second service built from the same layer, so that per-invocation strategies (value_fn counter) are exercised repeatedly; in two of four cases those further calls are in flight together, and in one of four the first of them is dropped while its fallback is pending. Oracle: pure reference function: success or refused error => inner result unchanged (serial/code identity) and no strategy or backup invocation; handled error => exactly the strategy's value for this request and this error (value identity, error encoded in the response, request echoed, backup entered once with this request, FallbackFailed carrying the backup's error, transformed error); inner service entered exactly once with the identical request. Non-trivial: every case contains all handled-error cells; distinct by hash of the payloads".into()
+        "every generated case (request id/key/tag, value payload, two inner error codes and a backup error code of either parity, inner latency 0-2 ms) enumerates the complete grid {value, value_fn, from_error, from_request_error, backup service ok, backup service failing, exception} x {no predicate, accept all, refuse all, accept odd codes, stateful: accept every other time it is asked} x {inner ok, error a, error b} = 105 cells (exhaustive for the finite part); each cell's layer then takes 0-3 further generated calls (other outcomes) through the same service, a clone or a second service built from the same layer, so that per-invocation strategies (value_fn counter) are exercised repeatedly; in two of four cases those further calls are in flight together, and in one of four the first of them is dropped while its fallback is pending. Oracle: pure reference function: success or refused error => inner result unchanged (serial/code identity) and no strategy or backup invocation; handled error => exactly the strategy's value for this request and this error (value identity, error encoded in the response, request echoed, backup entered once with this request, FallbackFailed carrying the backup's error, transformed error); inner service entered exactly once with the identical request.Also generated: event listeners (none / first / last / both), the failing backup routed through a second fallback layer (the outer call then succeeds with that layer's response), another strategy set first and overridden. Non-trivial: every case contains all handled-error cells; distinct by hash of the payloads".into()
     }
     fn assumptions(&self) -> Vec<String> {
         vec!["one request per grid cell; payloads are drawn, the grid is enumerated".into()]
